@@ -15,6 +15,9 @@ Property theorems only (helper lemmas: `NixModel/Lemmas/C10Values.lean`, `C10Sta
 * `Input.assigned?` / `Input.appended?` — the list of values an input *denotes*, defined on the
   specification side without any dtype (`Lemmas/C10Values.lean`).
 * `step st op = (st', out)` — one call; `out` is the result or the exception class.
+* `Input.WF` — the inputs the model speaks about: arrays whose data fit their shape and dtype, text
+  not ending in NUL characters (numpy's `np.array(vals, dtype=str)` silently drops trailing NULs;
+  recorded as known finding `C10-text-trailing-nul-dropped`, outside the model).
 -/
 namespace Nix.C10
 open Nix.PropVals
@@ -87,7 +90,7 @@ theorem C10_dtype_at_creation {st : State} {name : Str} :
 /-- A successful assignment stores exactly the values the input denotes, in order; the very next
 read through the same key returns them (name, id, dtype and attributes unchanged), also after
 closing and reopening the file. -/
-theorem C10_read_last_stored {st : State} (hr : Reachable st) {k : PKey} {inp : Input}
+theorem C10_read_last_stored {st : State} (hr : Reachable st) {k : PKey} {inp : Input} (_hwf : inp.WF = true)
     (hok : (step st (.set k inp)).2 = .ok .unit) :
     ∃ p cells, findProp st k = .ok p ∧ inp.assigned? = some cells ∧
       findProp (step st (.set k inp)).1 k = .ok { p with vals := cells } ∧
